@@ -121,6 +121,13 @@ theorem registry_first_order (cfg : Cfg) (susp : Bool) (rt : Routing) (c : Call)
   rw [← (judgeFacts_runCallS cfg susp rt c rs hn).mirror]
   exact foldl_foldExch_get_from o.exch s j rt hn
 
+/-- **An initial SUBSCRIBE carries the notify server's callback URL of the moment it is built** (over the generated header
+    table): the model has no remembered URL, `cfg` is the configuration at the time of the call. The driver judges
+    `callbackOk <current URL>` on every call of the real handler's trace. -/
+theorem initial_subscribe_carries_current_callback (cfg : Cfg) (svc : Nat) (t : Int) :
+    callbackOk cfg.callback [⟨subscribeRequest cfg svc t, .connErr⟩] = true := by
+  simp [callbackOk, sub_callback]
+
 /-- **Everything but request validity and the returned timeout holds for every call, whatever timeout the caller
     passes** (negative ones included): the registry stays the publisher-side fold with distinct SIDs, the fallback
     count, the targets of the requests and "unrouted when the UNSUBSCRIBE arrives". -/
